@@ -660,8 +660,8 @@ def try_parse(octets):
 
 
 def coq_eval(worlds):
-    """worlds: list of list of dict(msg, obs (parsed or None)). Returns per world dict of lists."""
-    body = COQ_HEAD
+    """worlds: list of list of dict(msg, obs (parsed or None), raw, bds, eah). Returns per world dict of lists."""
+    body = COQ_HEAD + "Definition dflt := mk_msg [] (Single []).\n"
     for w, items in enumerate(worlds):
         body += "Definition ms%d : list msg := [\n%s].\n" % (w, ";\n".join(cmsg(it["msg"]) for it in items))
         body += "Definition os%d : list (option msg) := [\n%s].\n" % (w, ";\n".join(comsg(it["obs"]) for it in items))
@@ -669,20 +669,22 @@ def coq_eval(worlds):
         body += "Definition spec%d := Eval vm_compute in false_positions 0 (zip_with spec_ok ms%d os%d).\nPrint spec%d.\n" % (w, w, w, w)
         body += "Definition mspec%d := Eval vm_compute in false_positions 0 (zip_with spec_ok ms%d (results ms%d)).\nPrint mspec%d.\n" % (w, w, w, w)
         body += "Definition cls%d := Eval vm_compute in classes ms%d.\nPrint cls%d.\n" % (w, w, w)
-        # generator cross-checks: serialisation twin and decoders
-        ser = [(it["msg"], it["bds"], it["raw"]) for it in items if it.get("raw") is not None][:6]
+        # cross-checks: serialisation twin, decoders, extractAllHeaders (string level)
+        rawpos = [k for k, it in enumerate(items) if it.get("raw") is not None]
+        body += "Definition raws%d : list str := [\n%s].\n" % (w, ";\n".join(cstr(items[k]["raw"]) for k in rawpos))
         body += "Definition ser%d := Eval vm_compute in false_positions 0 [\n%s].\nPrint ser%d.\n" % (
-            w, ";\n".join("str_eqb (serialize %s [%s]) %s" % (cmsg(m), "; ".join(cstr(b) for b in bds), cstr(raw)) for (m, bds, raw) in ser), w)
-        dec = [(it["msg"], decoded_list(it["msg"])) for it in items]
-        dec = [(m, d) for (m, d) in dec if d is not None][:12]
+            w, ";\n".join("str_eqb (serialize (nth %d ms%d dflt) [%s]) (nth %d raws%d [])" % (k, w, "; ".join(cstr(b) for b in items[k]["bds"]), j, w)
+                          for j, k in enumerate(rawpos)), w)
+        dec = [(k, decoded_list(it["msg"])) for k, it in enumerate(items)]
+        dec = [(k, d) for (k, d) in dec if d is not None]
         body += "Definition dec%d := Eval vm_compute in false_positions 0 [\n%s].\nPrint dec%d.\n" % (
-            w, ";\n".join("list_eqb str_eqb (msg_decodes %s) [%s]" % (cmsg(m), "; ".join(cstr(x) for x in d)) for (m, d) in dec), w)
-        hd = [it for it in items if it.get("raw") is not None and it.get("eah") is not None][:40]
+            w, ";\n".join("list_eqb str_eqb (msg_decodes (nth %d ms%d dflt)) [%s]" % (k, w, "; ".join(cstr(x) for x in d)) for (k, d) in dec), w)
+        hd = [(j, k) for j, k in enumerate(rawpos) if items[k].get("eah") is not None]
         body += "Definition eah%d := Eval vm_compute in false_positions 0 [\n%s].\nPrint eah%d.\n" % (
-            w, ";\n".join("list_eqb hdr_eqb (extract_all_headers %s) [%s] && list_eqb hdr_eqb (extract_all_headers %s) (map hdr_store (m_hdrs %s ++ %s))" % (
-                cstr(it["raw"]), "; ".join("(%s, %s)" % (cstr(n), cstr(v)) for (n, v) in it["eah"]), cstr(it["raw"]), cmsg(it["msg"]),
-                ("[]" if it["msg"]["body"][0] == "single" else "[(S_ \"Content-Type\", %s)]" % cstr(b" multipart/" + it["msg"]["body"][1] + b"; boundary=" + q(it["bds"][0]))))
-                          for it in hd), w)
+            w, ";\n".join("(let e := extract_all_headers (nth %d raws%d []) in list_eqb hdr_eqb e [%s] && list_eqb hdr_eqb e (map hdr_store (m_hdrs (nth %d ms%d dflt) ++ %s)))" % (
+                j, w, "; ".join("(%s, %s)" % (cstr(n), cstr(v)) for (n, v) in items[k]["eah"]), k, w,
+                ("[]" if items[k]["msg"]["body"][0] == "single" else "[(S_ \"Content-Type\", %s)]" % cstr(b" multipart/" + items[k]["msg"]["body"][1] + b"; boundary=" + q(items[k]["bds"][0]))))
+                          for (j, k) in hd), w)
     rc, log = C.coq_eval_cases("C02", body, timeout=1500)
     if rc != 0:
         return None, log
@@ -762,10 +764,9 @@ def make_world(msgs, vias, order):
     return items
 
 
-def evaluate(chk, msgs, vias, tag, expected=None):
-    """Runs the messages in two worlds (given order / reversed order, other
-    transport), evaluates model + oracle in Coq, reports. [expected]: dict
-    index -> class for corpus replays."""
+def prepare(chk, msgs, vias, tag, expected=None):
+    """Serialises the messages, self-checks the harness parser and returns the
+    scenario (two worlds: given order / reversed order with the other transport)."""
     n = len(msgs)
     for i, m in enumerate(msgs):
         m["_bds"] = boundaries_for(m, i)
@@ -781,19 +782,22 @@ def evaluate(chk, msgs, vias, tag, expected=None):
         if want != got and not m.get("_malformed"):
             chk.broken_obligation("harness self-check: strict parser does not invert the serialiser (%s #%d)" % (tag, i),
                                   {"suite": "selfcheck", "msg": tree_json(strip_gen(m["body"])), "raw": C.latin(m["_raw"])})
-            return False
+            return None
     orderA = list(range(n))
     orderB = list(reversed(range(n)))
     viasB = ["lmtp" if v == "append" else "append" for v in vias]
-    scen = [make_world(msgs, vias, orderA), make_world(msgs, viasB, orderB)]
-    from concurrent.futures import ThreadPoolExecutor
-    with ThreadPoolExecutor(max_workers=2) as ex:
-        rs = list(ex.map(run_world, scen))
+    return {"msgs": msgs, "tag": tag, "expected": expected, "orders": [orderA, orderB],
+            "scen": [make_world(msgs, vias, orderA), make_world(msgs, viasB, orderB)]}
+
+
+def observe(chk, sc, rs, eah):
+    """rs: the two run_world results. Builds the per-world item lists."""
+    msgs, tag = sc["msgs"], sc["tag"]
     for (r, err) in rs:
         if r is None:
             chk.broken_obligation("driver crashed in scenario %s: %s" % (tag, err), {"suite": "world"})
             return False
-    eah = eah_calls([m["_raw"] for m in msgs])
+    orderA, orderB = sc["orders"]
     worlds = []
     for wi, (order, (r, _)) in enumerate(zip([orderA, orderB], rs)):
         items = []
@@ -825,10 +829,14 @@ def evaluate(chk, msgs, vias, tag, expected=None):
             else:
                 refused.append((wi, it))
         worlds[wi] = keep
-    ev, log = coq_eval(worlds)
-    if ev is None:
-        chk.broken_obligation("in-Coq evaluation of the C02 cases failed (%s):\n%s" % (tag, (log or "")[-1800:]), {"suite": "coq"})
-        return False
+    sc["worlds"] = worlds
+    sc["refused"] = refused
+    return True
+
+
+def judge(chk, sc, ev):
+    """ev: the Coq results of this scenario's two worlds."""
+    msgs, tag, expected, worlds, refused = sc["msgs"], sc["tag"], sc["expected"], sc["worlds"], sc["refused"]
     cov = chk.cov
     unclassified_violation = False
     mismatches = []
@@ -904,21 +912,66 @@ def evaluate(chk, msgs, vias, tag, expected=None):
                     unclassified_violation = True
                     chk.violation("%s: the same message is returned differently under two histories and the model sees no blob conflict: %r vs %r" % (tag, a[:160], b[:160]), payload)
     cov["disagreements_checked"] += len(mismatches)
-    if mismatches and not unclassified_violation:
-        wi, pos, kind = mismatches[0]
-        it = worlds[wi][pos] if kind == "pred" else worlds[wi][min(pos, len(worlds[wi]) - 1)]
-        # inside a listed finding class a mismatch is informational
+    st = chk.__dict__.setdefault("_c02", {"unclassified": False, "mismatch": []})
+    st["unclassified"] = st["unclassified"] or unclassified_violation
+    for (wi, pos, kind) in mismatches[:2]:
+        it = worlds[wi][min(pos, len(worlds[wi]) - 1)]
         if kind == "pred" and ev[wi]["cls"][pos] in chk.findings:
             chk.notes.append("model/implementation mismatch inside finding class %s (informational)" % ev[wi]["cls"][pos])
         else:
-            chk.broken_obligation("correspondence %s no longer checks: implementation output differs from the model's prediction although msg_equiv still holds (%s): submitted %r fetched %r" % (
-                kind, tag, it["d"]["submitted"][:160], (it["d"].get("f1") or b"")[:200]),
-                {"suite": "mismatch", "kind": kind, "submitted": C.latin(it["d"]["submitted"]), "fetched": C.latin(it["d"].get("f1") or b"")})
+            st["mismatch"].append((kind, tag, it["d"]["submitted"], it["d"].get("f1") or b""))
     for (wi, it) in refused:
         cov["refused_at_submission"] = cov.get("refused_at_submission", 0) + 1
         if not it["msg"].get("_malformed") and not msgs[it["idx"]].get("_malformed"):
             chk.notes.append("a message of the grammar was refused at submission (%s): %r -> %r" % (it["d"]["via"], it["d"]["submitted"][:80], it["d"]["reply"][:80]))
     return True
+
+
+
+
+def evaluate_all(chk, scenarios):
+    """run every world of every scenario (in parallel), evaluate in Coq in chunks, judge."""
+    scenarios = [sc for sc in scenarios if sc is not None]
+    if not scenarios:
+        return
+    flat = [w for sc in scenarios for w in sc["scen"]]
+    from concurrent.futures import ThreadPoolExecutor
+    C.build_driver()
+    with ThreadPoolExecutor(max_workers=8) as ex:
+        rs = list(ex.map(run_world, flat))
+        eahs = list(ex.map(lambda sc: eah_calls([m["_raw"] for m in sc["msgs"]]), scenarios))
+    ok = []
+    for k, sc in enumerate(scenarios):
+        if observe(chk, sc, rs[2 * k:2 * k + 2], eahs[k]):
+            ok.append(sc)
+    # chunks of at most ~160 messages per Coq file
+    chunk, size = [], 0
+    chunks = []
+    for sc in ok:
+        n = sum(len(w) for w in sc["worlds"])
+        if chunk and size + n > 160:
+            chunks.append(chunk)
+            chunk, size = [], 0
+        chunk.append(sc)
+        size += n
+    if chunk:
+        chunks.append(chunk)
+    for ch in chunks:
+        worlds = [w for sc in ch for w in sc["worlds"]]
+        ev, log = coq_eval(worlds)
+        if ev is None:
+            chk.broken_obligation("in-Coq evaluation of the C02 cases failed (%s):\n%s" % (",".join(sc["tag"] for sc in ch), (log or "")[-1800:]), {"suite": "coq"})
+            return
+        for k, sc in enumerate(ch):
+            judge(chk, sc, ev[2 * k:2 * k + 2])
+    st = chk.__dict__.get("_c02", {"unclassified": False, "mismatch": []})
+    if st["mismatch"] and not st["unclassified"]:
+        # implementation != model although no message violates msg_equiv outside the listed classes:
+        # the theorems no longer speak about this code
+        kind, tag, sub, got = st["mismatch"][0]
+        chk.broken_obligation("correspondence %s no longer checks: implementation output differs from the model's prediction although msg_equiv still holds (%s, %d cases): submitted %r fetched %r" % (
+            kind, tag, len(st["mismatch"]), sub[:160], got[:200]),
+            {"suite": "mismatch", "kind": kind, "submitted": C.latin(sub), "fetched": C.latin(got)})
 
 
 def corpus_cases():
@@ -938,13 +991,14 @@ def run(chk):
                    "harness parser; model prediction (results), oracle (msg_equiv) and classify evaluated by vm_compute; non-trivial = multipart, or single-part with a folded "
                    "header, a body over 1024 octets or a transfer encoding")
     # 1. corpus witnesses of the listed findings
+    scenarios = []
     for name, d in corpus_cases():
         msgs = [msg_unjson(x) for x in d["messages"]]
         for m in msgs:
             if d.get("malformed"):
                 m["_malformed"] = True
         exp = {int(k): v for k, v in d.get("expect", {}).items()}
-        evaluate(chk, msgs, d.get("vias", ["append"] * len(msgs)), "corpus/" + name, expected=exp)
+        scenarios.append(prepare(chk, msgs, d.get("vias", ["append"] * len(msgs)), "corpus/" + name, expected=exp))
     # 2. generated histories
     nworlds, per = (3, 14) if chk.tier == "quick" else (24, 22)
     nontrivial = set()
@@ -959,8 +1013,8 @@ def run(chk):
                 nontrivial.add(json.dumps(tree_json(strip_gen({"h": m["hdrs"], "b": m["body"]})), sort_keys=True))
         if w == 0:
             chk.sample({"submitted_octets": C.latin(serialize(msgs[0], boundaries_for(msgs[0], 0)))[:600]})
-        if not evaluate(chk, msgs, vias, "gen%d" % w):
-            break
+        scenarios.append(prepare(chk, msgs, vias, "gen%d" % w))
+    evaluate_all(chk, scenarios)
     cov["distinct_nontrivial"] = len(nontrivial)
     cov["worlds"] = nworlds * 2
     cov["messages_per_world"] = per
